@@ -27,6 +27,9 @@ CLAIMS = {
  'C16': dict(engine='ALG+AFF-lite', technique='abstract interpretation over exact real terms for the filter updates and generators (2*pi read from the checked constant table); loop-body state transformers for the two accumulation loops; call-order/argument rule for the delay-line pushes; effect rule for the block moves and zeroing',
    cat='other', text='lpf/hpf updates, init and zero equal the documented recurrences for all states/inputs (convex-combination and decay clauses as coefficient identities); both generators equal the documented formulas and are ratios with positive coefficients (strictly inside (0,1) for positive fc, ts in real arithmetic), macro twins fold to the same value; a_tf_iter is shown to be push_fore(input); y = sum num[i]*input[i] - sum den[i]*output[i] over exactly num_n/den_n terms; push_fore(output, y); return y, with a_real_push_fore the one-cell shift towards higher indices; zero/setters clear exactly the stated cells',
    note=TRUST + ', sympy; IEEE operations read as exact real operations: saturation of the generators under extreme fc*ts rounding is not decided; arrays and ctx assumed not to overlap; linearity/time-invariance follow from the verified sum form (not separately checked)'),
+ 'C13': dict(engine='ALG', technique='decision-tree abstract interpretation with parameters ordered through positive gap symbols; cell-by-cell identity with the documented pieces, symbolic slope signs and continuity at every breakpoint; sign-form rule for the smooth families; per-enumerator evaluation of the dispatchers with callees as uninterpreted terms; path-wise min/max resolution for the operators; polynomial comparison of buffer macro and layout',
+   cat='other', text='trap/tri/lins/linz/s/z/pi/gauss2: on every elementary interval the code equals the documented piece, with the documented slope sign, continuity at all breakpoints, core exactly 1 and s+z = lins+linz = 1 (hence range [0,1]); gauss/gbell/sig/psig equal their formulas in a form that confines them to (0,1]; a_mf and a_pid_fuzzy_mf dispatch every enumerator to the like-named function with the parameters in order and the right cursor advance, a_pid_fuzzy_opr maps every operator constant; all 9 fuzzy operators equal their documented formulas on every path; A_PID_FUZZY_BFUZZ(n) and the idx/val layout equal 2n unsigneds + n(2+n) reals for both real widths',
+   note=TRUST + ', sympy; parameters well ordered with non-zero widths (as the property states); commutativity/monotonicity/boundary/min-max-bound clauses follow from the documented operator formulas (standard t-norm facts), the checker proves code = formula; NOT decided: the defuzzifier loops (weighted mean between smallest and largest consequent) and the write extent of the joint-membership loops inside the scratch buffer (need nested-loop summaries; only macro size and layout are decided)'),
 }
 
 NA = {
@@ -59,7 +62,7 @@ def main():
                   'baseline_off_cmd': 'ctest --test-dir /repo/_build -j8 --timeout 900', 'source_commits': [], 'add_only': True},
         'engines': [
             {'name': 'irx+llir', 'path': 'lib/irx.py, lib/llir.py', 'serves_properties': sorted(CLAIMS), 'kind_free_text': 'clang/opt IR pipeline and IR reader (CFG, dominators, loops, def-use)'},
-            {'name': 'ALG', 'path': 'lib/symx.py, lib/alg.py', 'serves_properties': ['C12', 'C15', 'C16', 'C17', 'C19'], 'kind_free_text': 'abstract interpreter over exact algebraic values with trace partitioning'},
+            {'name': 'ALG', 'path': 'lib/symx.py, lib/alg.py', 'serves_properties': ['C12', 'C13', 'C15', 'C16', 'C17', 'C19'], 'kind_free_text': 'abstract interpreter over exact algebraic values with trace partitioning'},
             {'name': 'BIT', 'path': 'lib/bit.py, lib/looptx.py', 'serves_properties': ['C17', 'C18', 'C19'], 'kind_free_text': 'GF(2) algebraic-normal-form bit vectors; loop-body state transformers'},
             {'name': 'ABI', 'path': 'props/C20.py, lib/dwarf.py, lib/rustsrc.py', 'serves_properties': ['C20'], 'kind_free_text': 'declaration and layout agreement'},
         ],
